@@ -2,6 +2,7 @@ import Std.Data.String.ToNat
 import BeffVerif.Model.Hash256
 import BeffVerif.Model.Validate
 import BeffVerif.Lemmas.Sort
+import BeffVerif.Lemmas.Pairwise2
 import BeffVerif.Props.C13Inj
 /-!
 # C13 — the Runtype-level encoding omits nothing a validator depends on (closed types)
@@ -223,12 +224,6 @@ theorem PF_andThen {f1 f2 g1 g2 : Nat → Option (List Tok)} {P Q : Prop} (hf : 
           subst x'
           exact ⟨rfl, y', z, z'⟩
 
-/-- element-wise relation of two lists of the same length -/
-def Pairwise2 {α β : Type} (P : α → β → Prop) : List α → List β → Prop
-  | [], [] => True
-  | x :: xs, y :: ys => P x y ∧ Pairwise2 P xs ys
-  | _, _ => False
-
 theorem PF_seqT {α β : Type} {f : α → Nat → Option (List Tok)} {g : β → Nat → Option (List Tok)}
     {P : α → β → Prop} : ∀ (xs : List α) (ys : List β), xs.length = ys.length →
     (∀ x ∈ xs, ∀ y ∈ ys, PF (f x) (g y) (P x y)) → PF (seqT f xs) (seqT g ys) (Pairwise2 P xs ys) := by
@@ -382,75 +377,6 @@ theorem sem_array {env1 env2 : Env} {t1 t2 : RT} (h : SemEq env1 env2 t1 t2) :
   | arr items => exact allShort_agree (fun y hy => ⟨y, hy, h strict m1 m2 y⟩) (fun y hy => ⟨y, hy, h strict m1 m2 y⟩)
   | _ => exact agree_ok rfl
 
-
-/-! ### Pairwise2 -/
-
-theorem pairwise2_length {α β : Type} {P : α → β → Prop} : ∀ {xs : List α} {ys : List β},
-    Pairwise2 P xs ys → xs.length = ys.length := by
-  intro xs
-  induction xs with
-  | nil => intro ys h; cases ys with
-    | nil => rfl
-    | cons y ys => exact absurd h (by simp [Pairwise2])
-  | cons x xs ih => intro ys h; cases ys with
-    | nil => exact absurd h (by simp [Pairwise2])
-    | cons y ys => simp only [Pairwise2] at h; simp [ih h.2]
-
-theorem pairwise2_left {α β : Type} {P : α → β → Prop} : ∀ {xs : List α} {ys : List β},
-    Pairwise2 P xs ys → ∀ x ∈ xs, ∃ y ∈ ys, P x y := by
-  intro xs
-  induction xs with
-  | nil => intro ys _ x hx; cases hx
-  | cons a xs ih => intro ys h x hx; cases ys with
-    | nil => exact absurd h (by simp [Pairwise2])
-    | cons b ys =>
-      simp only [Pairwise2] at h
-      rcases List.mem_cons.1 hx with e | hx
-      · subst e; exact ⟨b, by simp, h.1⟩
-      · obtain ⟨y, hy, hp⟩ := ih h.2 x hx
-        exact ⟨y, List.mem_cons_of_mem _ hy, hp⟩
-
-theorem pairwise2_right {α β : Type} {P : α → β → Prop} : ∀ {xs : List α} {ys : List β},
-    Pairwise2 P xs ys → ∀ y ∈ ys, ∃ x ∈ xs, P x y := by
-  intro xs
-  induction xs with
-  | nil => intro ys h y hy; cases ys with
-    | nil => cases hy
-    | cons b ys => exact absurd h (by simp [Pairwise2])
-  | cons a xs ih => intro ys h y hy; cases ys with
-    | nil => cases hy
-    | cons b ys =>
-      simp only [Pairwise2] at h
-      rcases List.mem_cons.1 hy with e | hy
-      · subst e; exact ⟨a, by simp, h.1⟩
-      · obtain ⟨x, hx, hp⟩ := ih h.2 y hy
-        exact ⟨x, List.mem_cons_of_mem _ hx, hp⟩
-
-theorem pairwise2_zip {α β γ : Type} {P : α → β → Prop} : ∀ (xs : List α) (ys : List β) (r : List γ),
-    Pairwise2 P xs ys → Pairwise2 (fun (a : α × γ) (b : β × γ) => P a.1 b.1 ∧ a.2 = b.2) (xs.zip r) (ys.zip r) := by
-  intro xs
-  induction xs with
-  | nil => intro ys r h; cases ys with
-    | nil => simp [Pairwise2]
-    | cons y ys => exact absurd h (by simp [Pairwise2])
-  | cons x xs ih => intro ys r h; cases ys with
-    | nil => exact absurd h (by simp [Pairwise2])
-    | cons y ys =>
-      simp only [Pairwise2] at h
-      cases r with
-      | nil => simp [Pairwise2]
-      | cons c r => simp only [List.zip_cons_cons]; exact ⟨⟨h.1, rfl⟩, ih ys r h.2⟩
-
-theorem pairwise2_mono {α β : Type} {P Q : α → β → Prop} (hpq : ∀ a b, P a b → Q a b) : ∀ {xs : List α} {ys : List β},
-    Pairwise2 P xs ys → Pairwise2 Q xs ys := by
-  intro xs
-  induction xs with
-  | nil => intro ys h; cases ys with
-    | nil => trivial
-    | cons y ys => exact absurd h (by simp [Pairwise2])
-  | cons x xs ih => intro ys h; cases ys with
-    | nil => exact absurd h (by simp [Pairwise2])
-    | cons y ys => simp only [Pairwise2] at h ⊢; exact ⟨hpq _ _ h.1, ih h.2⟩
 
 /-- a conjunction over element-wise agreeing lists -/
 theorem allShort_agree_p2 {α β : Type} {f : α → Res Bool} {g : β → Res Bool} {l1 : List α} {l2 : List β}
